@@ -77,6 +77,11 @@ fn check_case(name: &str, tree: &ENode, arg: &RV, unit: Unit, st: &mut Stats) {
     };
     let result = match result {
         Ok(r) => r,
+        Err(_) if matches!(exp, BExpect::Unclaimed) => {
+            // neither a value nor an error, but on an input this property does not claim: C01 reports it
+            st.count("unclaimed-panic");
+            return;
+        },
         Err(p) => {
             st.violation(Violation {
                 property: ID,
